@@ -247,6 +247,19 @@ func replayMain(args []string) int {
 	o := cd.Eval(rf.History)
 	if !*quiet {
 		fmt.Println("log fingerprint", o.Fingerprint)
+		if o.Real != nil && os.Getenv("DIGSIM_DUMP") != "" {
+			for i, r := range o.Real.R.Res {
+				fmt.Printf("op %d verdict=%s err=%q\n", i, r.Verdict, r.Facts.Text)
+				if r.Dot != "" {
+					fmt.Println(r.Dot)
+				}
+				for _, e := range o.Real.R.Events(i) {
+					if e.Kind != EvAPICall && e.Kind != EvAPIRet {
+						fmt.Println("    ", e.Canon())
+					}
+				}
+			}
+		}
 	}
 	hit := false
 	for _, v := range o.Viol {
@@ -748,6 +761,8 @@ func Main(cmd string, args []string) int {
 		return selftestMain(args)
 	case "try":
 		return tryMain(args)
+	case "gencat":
+		return gencatMain(args)
 	}
 	fmt.Fprintln(os.Stderr, "unknown command", cmd)
 	return 2
